@@ -64,6 +64,33 @@ def run(ctx):
                                   (i, cls.__name__, cls.get_id(fc.context)),
                                   {'table': tname, 'version': pv, 'id': i},
                                   key={'table': tname, 'version': pv, 'id': i, 'kind': 'wrong-class'})
+    # the documented re-initialisation entry points must leave the id tables as they are: the plain
+    # `initglobals()` (after a user edited SUPPORTED_MINECRAFT_VERSIONS) and the full rebuild
+    try:
+        for mode, kw in (('initglobals()', {}), ('initglobals(use_known_records=True)', {'use_known_records': True})):
+            try:
+                minecraft.initglobals(**kw)
+                again = extract.id_tables()
+                err = None
+            except Exception as e:
+                again, err = None, repr(e)
+            ctx.case(('reinit', mode))
+            if err is not None or again != tabs:
+                diff = err
+                if diff is None:
+                    for tname in tabs:
+                        for r0, r1 in zip(tabs[tname], again[tname]):
+                            if r0 != r1:
+                                diff = '%s at protocol %d: %r -> %r' % (tname, r0[0], r0[2][:3], r1[2][:3])
+                                break
+                        if diff:
+                            break
+                    diff = diff or 'row sets differ (%d vs %d versions)' % (
+                        sum(len(v) for v in tabs.values()), sum(len(v) for v in again.values()))
+                ctx.violation('after minecraft.%s registered classes no longer resolve to the same ids: %s' % (mode, diff),
+                              {'call': mode}, key={'kind': 'reinit', 'call': mode})
+    finally:
+        minecraft.initglobals(use_known_records=True)
     ctx.extra['unsupported_versions_report'] = unsupported_report[:40]
     ctx.extra['unsupported_versions_with_issues'] = len(unsupported_report)
 
